@@ -719,14 +719,28 @@ class Interp:
     def ev_Name(self, n, env, ctx):
         return self.lookup_name(n.id, n, env, ctx)
 
+    def _elts(self, n, env, ctx):
+        """elements of a tuple / list / set display; `*x` is spliced when x is a tuple known item by item"""
+        out = []
+        for e in n.elts:
+            if isinstance(e, ast.Starred):
+                v = self.ev(e.value, env, ctx)
+                if isinstance(v, TupleV):
+                    out.extend(v.items)
+                else:
+                    raise Inconclusive("starred element in a %s display is not modelled" % type(n).__name__.lower(), n)
+            else:
+                out.append(self.ev(e, env, ctx))
+        return out
+
     def ev_Tuple(self, n, env, ctx):
-        return self.h_seq("tuple", [self.ev(e, env, ctx) for e in n.elts], n, ctx)
+        return self.h_seq("tuple", self._elts(n, env, ctx), n, ctx)
 
     def ev_List(self, n, env, ctx):
-        return self.h_seq("list", [self.ev(e, env, ctx) for e in n.elts], n, ctx)
+        return self.h_seq("list", self._elts(n, env, ctx), n, ctx)
 
     def ev_Set(self, n, env, ctx):
-        return self.h_seq("set", [self.ev(e, env, ctx) for e in n.elts], n, ctx)
+        return self.h_seq("set", self._elts(n, env, ctx), n, ctx)
 
     def ev_Dict(self, n, env, ctx):
         ks = [self.ev(k, env, ctx) if k is not None else None for k in n.keys]
@@ -1526,6 +1540,12 @@ class Interp:
         return None
 
     def st_Raise(self, s, env, ctx):
+        h = getattr(ctx, "handling", None)
+        if h is not None and (s.exc is None or (isinstance(s.exc, ast.Name) and s.exc.id == h[0].name and s.cause is None)):
+            # `raise` / `raise e` inside `except ... as e`: the exception that was caught travels on unchanged
+            for item in h[1]:
+                ctx.raises.append(item)
+            return None
         v = self.ev(s.exc, env, ctx) if s.exc is not None else None
         self.h_raise(v, s, env, ctx)
         ctx.raises.append((v, s, env))
@@ -1713,7 +1733,12 @@ class Interp:
             he = dict(hentry)
             if h.name:
                 he[h.name] = self.h_exc_var(h, he, ctx)
-            ho = self.exec_block(h.body, he, ctx)
+            saved = getattr(ctx, "handling", None)
+            ctx.handling = (h, list(caught))
+            try:
+                ho = self.exec_block(h.body, he, ctx)
+            finally:
+                ctx.handling = saved
             out = self.join_env(out, ho)
         if s.finalbody:
             # `finally` also runs on the way out of a `return` inside the try statement
